@@ -128,8 +128,8 @@ def _resolve_str(node, module, where):
     raise Unsupported("%s: not a string constant: %s" % (where, ast.unparse(node)))
 
 
-def doc_detection(avro):
-    """the first `if` of schema_to_descriptor: doc and doc.startswith(P) and doc.endswith(S)"""
+def _doc_detection_ast(avro):
+    """the first `if` of schema_to_descriptor: doc and doc.startswith(P) and doc.endswith(S) -> (P, S)"""
     node = _fn_node(avro.schema_to_descriptor)
     ifs = [st for st in node.body if isinstance(st, ast.If)]
     if len(ifs) != 1:
@@ -153,31 +153,142 @@ def doc_detection(avro):
             raise Unsupported("schema_to_descriptor: unrecognised conjunct %s" % ast.unparse(v))
     if not truthy or prefix is None or suffix is None:
         raise Unsupported("schema_to_descriptor: detection condition lacks doc / startswith / endswith")
-    # the detected branch must json.loads the doc
-    body_src = " ".join(ast.unparse(st) for st in ifs[0].body)
-    if "json.loads(doc)" not in body_src:
-        raise Unsupported("schema_to_descriptor: detected branch does not json.loads(doc)")
     return prefix, suffix
 
 
-def reader_guard(avro):
-    node = _fn_node(avro.AvroReader.__iter__)
-    found = []
+def _doc_branch(avro, doc):
+    """which branch schema_to_descriptor takes for this doc text: True = the doc is json-decoded"""
+    schema = {"type": "record", "name": "fallback_name", "fields": [{"name": "fb", "type": "string"}]}
+    if doc is not None:
+        schema["doc"] = doc
+    try:
+        d = avro.schema_to_descriptor(schema)
+    except ValueError:          # json.JSONDecodeError / unpacking the decoded value: the doc branch was taken
+        return True
+    except TypeError:
+        return True
+    return not (d.name == "fallback_name" and [n for _, n in d.get_field_tuples()] == ["fb"])
+
+
+def doc_detection(avro, notes):
+    """(prefix, suffix) of the detection condition.  OBSERVED: schema_to_descriptor is run on a family of doc texts
+    and must take the doc branch exactly when the text is non-empty, starts with the prefix and ends with the suffix;
+    the source recogniser proposes the affixes and is a cross-check."""
+    try:
+        cand = _doc_detection_ast(avro)
+        recognised = True
+    except Unsupported as e:
+        cand = ('["', "]]]")
+        recognised = False
+        why = str(e)
+    P, S = cand
+    good = '["obs/doc", [["string", "q"]]]'
+    docs = [None, "", good, good[1:], "[" + good[2:], good[:-1], good[:-2] + "]", good[:-3] + "] ]", " " + good, good + " ",
+            '["x", []]', '["x", [[]]]', "[]]]", '["', P, S, P + S, P + "junk" + S, P[:-1] + S if P else S, P + S[1:] if S else P,
+            "x" + P + S, P + S + "x", "free text", '{"a": [[["b"]]]}', '["n", [["string", "a"], ["varint", "b"]]]',
+            "['obs/doc', [['string', 'q']]]", '["obs/doc",[["string","q"]]]']
+    for doc in docs:
+        want = bool(doc) and doc.startswith(P) and doc.endswith(S)
+        got = _doc_branch(avro, doc)
+        if got != want:
+            raise Unsupported("schema_to_descriptor: doc %r takes the %s branch, but the detection condition %s says otherwise"
+                              % (doc, "doc" if got else "fallback", "read from the source" if recognised else "assumed"))
+    if not recognised:
+        notes.append("shape of the doc-detection condition not recognised (%s); observed behaviour on %d doc texts used" % (why, len(docs)))
+    return P, S
+
+
+def _method_nodes_one_level(cls, fn):
+    """the function's AST plus the ASTs of the methods of cls it calls as self.<m>(...) (one level)"""
+    node = _fn_node(fn)
+    nodes = [node]
     for n in ast.walk(node):
-        if isinstance(n, ast.Compare) and len(n.ops) == 1 and isinstance(n.left, ast.Name) and n.left.id == "value":
-            if isinstance(n.ops[0], ast.Gt):
-                found.append(_resolve_int(n.comparators[0], avro, "AvroReader.__iter__ guard"))
-            elif isinstance(n.ops[0], ast.GtE):
-                found.append(_resolve_int(n.comparators[0], avro, "AvroReader.__iter__ guard") - 1)
-            else:
-                raise Unsupported("AvroReader.__iter__: comparison on `value` is not > / >=: %s" % ast.unparse(n))
+        if (isinstance(n, ast.Call) and isinstance(n.func, ast.Attribute) and isinstance(n.func.value, ast.Name)
+                and n.func.value.id == "self" and callable(getattr(cls, n.func.attr, None))):
+            try:
+                nodes.append(_fn_node(getattr(cls, n.func.attr)))
+            except (OSError, TypeError):
+                pass
+    return nodes
+
+
+def _reader_guard_ast(avro):
+    found = []
+    src = ""
+    for node in _method_nodes_one_level(avro.AvroReader, avro.AvroReader.__iter__):
+        src += ast.unparse(node) + "\n"
+        for n in ast.walk(node):
+            if isinstance(n, ast.Compare) and len(n.ops) == 1 and isinstance(n.left, ast.Name) and n.left.id == "value":
+                if isinstance(n.ops[0], ast.Gt):
+                    found.append(_resolve_int(n.comparators[0], avro, "AvroReader.__iter__ guard"))
+                elif isinstance(n.ops[0], ast.GtE):
+                    found.append(_resolve_int(n.comparators[0], avro, "AvroReader.__iter__ guard") - 1)
+                else:
+                    raise Unsupported("AvroReader.__iter__: comparison on `value` is not > / >=: %s" % ast.unparse(n))
     if len(found) != 1:
         raise Unsupported("AvroReader.__iter__: expected exactly one `value > CONSTANT` guard, found %d" % len(found))
-    # the guarded assignment must be EPOCH + timedelta(microseconds=value)
-    src = ast.unparse(node)
-    if "EPOCH + timedelta(microseconds=value)" not in src:
-        raise Unsupported("AvroReader.__iter__: guarded conversion is not EPOCH + timedelta(microseconds=value)")
     return found[0]
+
+
+def _read_plain_long(avro, v):
+    """AvroReader on a fastavro-written file whose doc declares a datetime field stored as a plain long v
+    -> 'micros' (EPOCH + v microseconds) | 'seconds' (the datetime field type took v as seconds) | 'other'"""
+    import io
+    import fastavro
+    doc = json.dumps(["obs/ts", [["datetime", "ts"]]])
+    schema = {"type": "record", "name": "ts", "namespace": "obs", "doc": doc, "fields": [{"name": "ts", "type": ["long", "null"]}]}
+    buf = io.BytesIO()
+    fastavro.writer(buf, fastavro.parse_schema(schema), [{"ts": v}])
+    buf.seek(0)
+    try:
+        recs = list(avro.AvroReader(buf))
+    except Exception:  # noqa
+        return "other"
+    if len(recs) != 1 or not isinstance(recs[0].ts, pydt.datetime):
+        return "other"
+    got = recs[0].ts
+    try:
+        if got == avro.EPOCH + pydt.timedelta(microseconds=v):
+            return "micros"
+    except OverflowError:
+        pass
+    try:
+        if got == pydt.datetime.fromtimestamp(v, pydt.timezone.utc):
+            return "seconds"
+    except (OverflowError, OSError, ValueError):
+        pass
+    return "other"
+
+
+def reader_guard(avro, notes):
+    """G such that an integer v in a datetime column is EPOCH + v microseconds exactly when v > G.  OBSERVED by
+    bisection on files written by fastavro (monotonicity checked on a grid); the source recogniser (which follows
+    private methods one level and resolves module constants) is a cross-check."""
+    hi = 10**15                      # 2001-09-09 in microseconds: must be read as microseconds
+    lo = 1                           # one second after EPOCH: must be read as seconds
+    if _read_plain_long(avro, hi) != "micros" or _read_plain_long(avro, lo) != "seconds":
+        raise Unsupported("AvroReader: a plain long in a datetime column is read as neither seconds (1) nor microseconds (10**15)")
+    while hi - lo > 1:
+        mid = (lo + hi) // 2
+        if _read_plain_long(avro, mid) == "micros":
+            hi = mid
+        else:
+            lo = mid
+    G = lo
+    for v in (2, 0xFFFF, 0x10000, 2**31 - 1, 2**31, G - 1, G):
+        if 1 <= v <= G and v <= 253402300799 and _read_plain_long(avro, v) != "seconds":
+            raise Unsupported("AvroReader: %d in a datetime column is not read as seconds although %d is the observed guard" % (v, G))
+    for v in (G + 1, G + 2, 2 * G + 1, 2**33, 2**40, 10**12, 10**15, 253402300799999999):
+        if v > G and _read_plain_long(avro, v) != "micros":
+            raise Unsupported("AvroReader: %d in a datetime column is not read as microseconds although %d is the observed guard" % (v, G))
+    try:
+        a = _reader_guard_ast(avro)
+    except Unsupported as e:
+        notes.append("shape of the reader's guard not recognised (%s); observed behaviour (bisection) used" % e)
+        return G
+    if a != G:
+        raise Unsupported("AvroReader: the source says `value > %d` but the observed guard is %d" % (a, G))
+    return G
 
 
 def _is_self(node, attr):
@@ -185,10 +296,12 @@ def _is_self(node, attr):
 
 
 class _Method:
-    def __init__(self, fn, recname=None):
+    def __init__(self, fn, recname=None, cls=None, depth=0):
         self.fn = fn
         self.node = _fn_node(fn)
         self.recname = recname
+        self.cls = cls
+        self.depth = depth
         self.packed = set()      # local names bound to <record>._packdict()
 
     def bad(self, node, what):
@@ -311,9 +424,46 @@ class _Method:
                     return "FpClose"
         self.bad(st, "unrecognised statement")
 
+    def helper(self, st):
+        """self._helper(...) / self._helper(r): the body of a private method of the class, spliced in (one level)"""
+        if not (isinstance(st, ast.Expr) and isinstance(st.value, ast.Call)):
+            return None
+        f = st.value.func
+        if not (isinstance(f, ast.Attribute) and isinstance(f.value, ast.Name) and f.value.id == "self" and f.attr.startswith("_")
+                and not f.attr.startswith("__") and self.cls is not None and self.depth == 0):
+            return None
+        fn = getattr(self.cls, f.attr, None)
+        if fn is None or st.value.keywords:
+            return None
+        try:
+            node = _fn_node(fn)
+        except (OSError, TypeError):
+            return None
+        params = [a.arg for a in node.args.args][1:]
+        if len(params) != len(st.value.args):
+            return None
+        recname = None
+        for prm, arg in zip(params, st.value.args):
+            if isinstance(arg, ast.Name) and arg.id == self.recname:
+                recname = prm
+            else:
+                return None
+        sub = _Method(fn, recname, self.cls, depth=1)
+        body = list(node.body)
+        if body and isinstance(body[-1], ast.Return) and (body[-1].value is None or (isinstance(body[-1].value, ast.Constant) and body[-1].value.value is None)):
+            body = body[:-1]
+        return sub.stmts_list(body)
+
     def stmts(self, body):
+        return clist(self.stmts_list(body))
+
+    def stmts_list(self, body):
         out = []
         for st in body:
+            spliced = self.helper(st)
+            if spliced is not None:
+                out.extend(spliced)
+                continue
             if isinstance(st, ast.If):
                 if st.orelse:
                     self.bad(st, "if with else")
@@ -322,19 +472,179 @@ class _Method:
                 a = self.act(st)
                 if a:
                     out.append("Do %s" % a)
-        return clist(out)
+        return out
 
     def body(self):
         return self.stmts(self.node.body)
 
 
-def writer_code(avro):
+CANONICAL_CODE = (
+    "[When CNoDesc [Do SetDesc; Do MakeSchema; Do ParseSchema; Do MakeWriter]; When CDescDiffers [Do RaiseMixed]; Do DryRun; Do WriterWrite]",
+    "[When CHasWriter [Do WriterFlush]]",
+    "[When CHasFp [When CNoWriter [Do MakeEmptyWriter]; Do CallFlush]; When CHasFpNotStdout [Do FpClose]; Do SetFpNone; Do SetWriterNone]",
+)
+
+
+def _writer_code_ast(avro):
     W = avro.AvroWriter
     wnode = _fn_node(W.write)
     args = [a.arg for a in wnode.args.args]
     if len(args) != 2:
         raise Unsupported("AvroWriter.write: unexpected signature")
-    return (_Method(W.write, args[1]).body(), _Method(W.flush).body(), _Method(W.close).body())
+    return (_Method(W.write, args[1], W).body(), _Method(W.flush, None, W).body(), _Method(W.close, None, W).body())
+
+
+def observe_writer(avro):
+    """Run the real AvroWriter on scripted sessions with fastavro, descriptor_to_schema and the file object wrapped
+    by event logs.  -> list of (call, outcome, events, state) per scenario"""
+    import io
+    import types
+    import fastavro as real
+    from flow.record import RecordDescriptor
+    ts = pydt.datetime(2020, 1, 2, 3, 4, 5, tzinfo=pydt.timezone.utc)
+    A = RecordDescriptor("obs/a", [("string", "user"), ("string", "host"), ("uint32", "n")])
+    B = RecordDescriptor("obs/b", [("string", "user")])
+    C = RecordDescriptor("obs/a", [("string", "userstringhost"), ("uint32", "n")])       # same (name, hash) identifier as A
+    U = RecordDescriptor("obs/u", [("string", "s"), ("path", "p")])
+    if A.identifier != C.identifier:
+        raise Unsupported("probe descriptors do not collide any more (descriptor hash changed)")
+    a1 = A(user="u1", host="h1", n=1, _generated=ts)
+    a2 = A(user="u2", host="h2", n=2, _generated=ts)
+    abad = A(user="u3", host="h3", n=2**31, _generated=ts)
+    b1 = B(user="x", _generated=ts)
+    c1 = C(userstringhost="y", n=3, _generated=ts)
+    u1 = U(s="s", p="/tmp", _generated=ts)
+    events = []
+
+    class Fp(io.BytesIO):
+        def close(self):
+            if not getattr(self, "_close_seen", False):      # the finaliser of a dropped file object calls close() again
+                self._close_seen = True
+                events.append("fp.close")
+
+    class LoggingWriter:
+        def __init__(self, fp, schema, **kw):
+            empty = not schema.get("fields")
+            events.append("Writer:%s:%s" % ("empty" if empty else "rec", ",".join(sorted(kw))))
+            if not isinstance(fp, Fp):
+                events.append("Writer:not-the-file")
+            self._w = real.write.Writer(fp, schema, **kw)
+
+        def write(self, data):
+            events.append("w.write")
+            return self._w.write(data)
+
+        def flush(self):
+            events.append("w.flush")
+            return self._w.flush()
+
+    def parse_schema(s, *a, **kw):
+        events.append("parse:%s" % ("empty" if not s.get("fields") else "rec"))
+        return real.parse_schema(s, *a, **kw)
+
+    def schemaless_writer(fo, schema, data, *a, **kw):
+        events.append("dry" if (isinstance(fo, io.BytesIO) and not isinstance(fo, Fp)) else "dry:into-the-file")
+        return real.schemaless_writer(fo, schema, data, *a, **kw)
+
+    proxy = types.SimpleNamespace(**{k: getattr(real, k) for k in dir(real) if not k.startswith("__")})
+    proxy.parse_schema = parse_schema
+    proxy.schemaless_writer = schemaless_writer
+    proxy.write = types.SimpleNamespace(**{k: getattr(real.write, k) for k in dir(real.write) if not k.startswith("__")})
+    proxy.write.Writer = LoggingWriter
+    real_d2s = avro.descriptor_to_schema
+
+    def d2s(desc):
+        events.append("schema:%s" % desc.name)
+        return real_d2s(desc)
+
+    scenarios = [
+        [("write", a1), ("write", a2), ("flush", None), ("write", b1), ("write", abad), ("write", c1), ("write", a1), ("close", None)],
+        [("flush", None), ("close", None)],
+        [("write", u1), ("write", a1), ("write", u1), ("flush", None), ("write", u1), ("close", None)],
+        [("write", abad), ("write", a1), ("close", None)],
+    ]
+    saved = (avro.fastavro, avro.descriptor_to_schema)
+    trace = []
+    try:
+        avro.fastavro = proxy
+        avro.descriptor_to_schema = d2s
+        for sc in scenarios:
+            w = avro.AvroWriter(Fp())
+            for call, arg in sc:
+                del events[:]
+                try:
+                    if call == "write":
+                        w.write(arg)
+                    elif call == "flush":
+                        w.flush()
+                    else:
+                        w.close()
+                    out = "ok"
+                except Exception as e:  # noqa
+                    out = type(e).__name__ + (":Mixed" if "Mixed record types" in str(e) else ":Unsupported" if "Unsupported Avro type" in str(e) else "")
+                state = "desc=%s writer=%s fp=%s" % ("-" if not w.desc else w.desc.name, "-" if not w.writer else "W", "-" if not w.fp else "F")
+                trace.append((call, out, tuple(events), state))
+    finally:
+        avro.fastavro, avro.descriptor_to_schema = saved
+    return trace
+
+
+def canonical_writer_trace():
+    """what observe_writer must see when write/flush/close ARE the canonical statement lists"""
+    first = ("schema:obs/a", "parse:rec", "Writer:rec:codec", "dry", "w.write")
+    est = "desc=obs/a writer=W fp=F"
+    closed = ("w.flush", "fp.close")
+    return [
+        ("write", "ok", first, est), ("write", "ok", ("dry", "w.write"), est), ("flush", "ok", ("w.flush",), est),
+        ("write", "Exception:Mixed", (), est), ("write", "ValueError", ("dry",), est), ("write", "Exception:Mixed", (), est),
+        ("write", "ok", ("dry", "w.write"), est), ("close", "ok", closed, "desc=obs/a writer=- fp=-"),
+        ("flush", "ok", (), "desc=- writer=- fp=F"),
+        ("close", "ok", ("parse:empty", "Writer:empty:codec") + closed, "desc=- writer=- fp=-"),
+        ("write", "Exception:Unsupported", ("schema:obs/u",), "desc=obs/u writer=- fp=F"),
+        ("write", "Exception:Mixed", (), "desc=obs/u writer=- fp=F"),
+        ("write", "TypeError", ("dry",), "desc=obs/u writer=- fp=F"), ("flush", "ok", (), "desc=obs/u writer=- fp=F"),
+        ("write", "TypeError", ("dry",), "desc=obs/u writer=- fp=F"),
+        ("close", "ok", ("parse:empty", "Writer:empty:codec") + closed, "desc=obs/u writer=- fp=-"),
+        ("write", "ValueError", first[:4], est), ("write", "ok", ("dry", "w.write"), est),
+        ("close", "ok", closed, "desc=obs/a writer=- fp=-"),
+    ]
+
+
+def writer_code(avro, notes):
+    """AvroWriter.write/flush/close as statement lists.  OBSERVED: the order of side effects on scripted sessions
+    (schema built, parsed, writer created, scratch encode BEFORE the block buffer, one descriptor per file incl. an
+    identifier-colliding one, flush only with a writer, placeholder + flush + file close on close); conclusive when
+    it equals what the canonical statement lists do.  The source recogniser (follows private helpers one level) is a
+    cross-check: it decides only when the observation is not the canonical one."""
+    try:
+        code = _writer_code_ast(avro)
+        why = None
+    except Unsupported as e:
+        code = None
+        why = str(e)
+    try:
+        obs = observe_writer(avro)
+    except Unsupported:
+        raise
+    except Exception as e:  # noqa
+        obs = None
+        why_obs = "%s: %s" % (type(e).__name__, e)
+    want = canonical_writer_trace()
+    if obs == want:
+        if code is None:
+            notes.append("shape of AvroWriter.write/flush/close not recognised (%s); observed order of side effects used" % why)
+        elif code != CANONICAL_CODE:
+            notes.append("AvroWriter.write/flush/close recognised as other statement lists with the same observed side effects; observation used")
+        return CANONICAL_CODE
+    if code is None:
+        diff = "observation failed: " + why_obs if obs is None else next(
+            ("step %d: observed %r, canonical %r" % (i, o, c) for i, (o, c) in enumerate(zip(obs, want)) if o != c), "length differs")
+        raise Unsupported("AvroWriter: source shape not recognised (%s) and the observed side effects are not the canonical ones (%s)" % (why, diff))
+    if code == CANONICAL_CODE:
+        diff = "observation failed: " + why_obs if obs is None else next(
+            ("step %d: observed %r, canonical %r" % (i, o, c) for i, (o, c) in enumerate(zip(obs, want)) if o != c), "length differs")
+        raise Unsupported("AvroWriter: the source reads as the canonical statement lists but behaves differently (%s)" % diff)
+    return code
 
 
 # ------------------------------------------------------------------------------------------
@@ -366,12 +676,15 @@ def gen_avro():
     has_doc = all(s is None or s.get("doc") == json.dumps([n, [list(x) for x in f]]) for n, f, s in probes)
     if not has_doc and any(s is not None and "doc" in s for n, f, s in probes):
         raise Unsupported("schema doc is neither absent nor json.dumps(desc._pack())")
-    prefix, suffix = doc_detection(avro)
-    guard = reader_guard(avro)
-    cw, cf, cc = writer_code(avro)
+    notes = []
+    prefix, suffix = doc_detection(avro, notes)
+    guard = reader_guard(avro, notes)
+    cw, cf, cc = writer_code(avro, notes)
 
     out = HEADER
     out += "From Coq Require Import List Bool String ZArith.\nImport ListNotations.\nFrom FR Require Import Avro.\nOpen Scope string_scope.\n\n"
+    for n in notes:
+        out += "(* note: %s *)\n" % n.replace("*)", "* )").replace("(*", "( *").replace('"', "'")
     out += "(* AVRO_TYPE_MAP, RECORD_TYPE_MAP (source order), RESERVED_FIELDS as (typename, fieldname), the union literal of\n"
     out += "   datetime fields and the null member of the other unions (as descriptor_to_schema builds them), whether the schema's\n"
     out += "   doc is json.dumps(desc._pack()), the affixes of the doc-detection condition, the reader's guard, EPOCH *)\n"
